@@ -24,7 +24,8 @@ RULE = ("one case = (map pipeline | plain DAG) x execution kind (pipeline(...), 
         "SimExecutor thread / process, patched default pool, map_async) x seeded schedule; every (function, "
         "invocation) of the reference call log is injected as the single failing call with a rotating exception type "
         "(ValueError('m'), KeyError('k'), ZeroDivisionError(), RuntimeError(), picklable CustomError(7,'detail')); "
-        "thorough adds two-failure plans. evaluations = injected plans executed; distinct_nontrivial = distinct "
+        "two-failure plans (more in thorough) and plans in which the user code raises one shared exception object from "
+        "several invocations. evaluations = injected plans executed; distinct_nontrivial = distinct "
         "(workload, execution kind, failing function, failing arguments) in which the fault actually fired")
 COMPONENTS = {
     "real": ["pipefunc Pipeline.__call__/run/_run/_execute_func", "run_map/run_map_async error paths", "handle_error",
@@ -237,7 +238,7 @@ def run_plan(w, cfg, faults, ref, tape, gens):
                             break
                     # 5. ErrorSnapshot (in-process execution only)
                     if inproc:
-                        _check_snapshot(p, w, fired, err, root, V)
+                        _check_snapshot(p, w, fired, err, root, V, raised_calls)
                     # 6. completed results stay loadable
                     if kind not in ("call", "run"):
                         _check_loadable(w, cfg, folder, ref, V)
@@ -265,7 +266,7 @@ def _kind_of(fobjs, call):
     return fobjs[0].exc_kind
 
 
-def _check_snapshot(p, w, fired, err, root, V):
+def _check_snapshot(p, w, fired, err, root, V, raised_calls):
     from pipefunc._pipefunc import ErrorSnapshot
 
     planned = [_exc_id(make_exc(f.exc_kind)) for f in fired]
@@ -278,6 +279,15 @@ def _check_snapshot(p, w, fired, err, root, V):
         snap = p[out].error_snapshot
         if snap is None:
             V("snapshot", "function-snapshot-missing", {"fn": f.fn})
+            return
+        # the snapshot holds the keyword arguments of a failing invocation of that function
+        failing = [dict(c.args) for c in raised_calls if c.fn == f.fn]
+        got_kw = {k2: canon(v2) for k2, v2 in snap.kwargs.items()}
+        if snap.args or got_kw not in failing:
+            V("snapshot", "snapshot-arguments-differ", {"fn": f.fn, "snapshot_kwargs": repr(got_kw)[:300], "failing": repr(failing)[:300]})
+            return
+        if _exc_id(snap.exception) not in planned:
+            V("snapshot", "snapshot-exception-differs", {"fn": f.fn, "got": repr(_exc_id(snap.exception))})
             return
         for label, s in (("direct", snap), ("saved", None)):
             if s is None:
